@@ -70,6 +70,71 @@ def rule_N1(ctx: Ctx) -> None:
     ctx.stat("tokenizer_space_size", n)
 
 
+def _abstract_run(fn, env: dict, call_hook=None, getattr_hook=None):
+    "evaluate a function body over abstract values; returns (\"value\", v) | (\"raises\", name) | (\"unknown\", why)"
+    from sa.fold import EvalRaised, Evaluator, Unknown
+
+    hooks = {}
+    if call_hook is not None:
+        hooks["__call__"] = call_hook
+    if getattr_hook is not None:
+        hooks["__getattr__"] = getattr_hook
+    try:
+        return ("value", Evaluator(hooks).run_body(X.body_wo_doc(fn.node), dict(env)))
+    except EvalRaised as e:
+        return ("raises", e.exc_name)
+    except Unknown as e:
+        return ("unknown", str(e)[:160])
+
+
+def _judge_apply_validation(ctx: Ctx, av) -> None:
+    """abstract evaluation of _apply_validation_func over symbolic types T < S < O (an MRO chain), a union type U without MRO, and
+    every relevant subset of keys in the validation map: exact match first, otherwise the *first* MRO class with a function, once"""
+    from sa.fold import Obj, Unknown
+
+    T, S, O, U = (Obj(f"type:{n}") for n in "TSOU")
+    mro = {"type:T": (T, S, O), "type:S": (S, O), "type:O": (O,)}
+    p_type, p_vals, p_funcs = av.params()[:3]
+
+    def call_hook(ev, node, env):
+        d = dotted_of(node.func) or ""
+        if d == "hasattr" and len(node.args) == 2:
+            o = ev.ev(node.args[0], env)
+            a = ev.ev(node.args[1], env)
+            return isinstance(o, Obj) and a == "__mro__" and o.cls in mro
+        if d == "filter" and len(node.args) == 2:
+            return ("filtered", ev.ev(node.args[0], env), ev.ev(node.args[1], env))
+        if d == "get_origin":
+            return None
+        return NotImplemented
+
+    def getattr_hook(o, attr):
+        if attr == "__mro__" and o.cls in mro:
+            return mro[o.cls]
+        raise Unknown(f"attribute {attr}")
+
+    cases = [
+        ("no validation map", T, None, "VALS"),
+        ("exact match wins over a base", T, {T: "fT", S: "fS"}, ("filtered", "fT", "VALS")),
+        ("nearest base in the MRO", T, {S: "fS"}, ("filtered", "fS", "VALS")),
+        ("only the first hit is applied", T, {S: "fS", O: "fO"}, ("filtered", "fS", "VALS")),
+        ("farthest base", T, {O: "fO"}, ("filtered", "fO", "VALS")),
+        ("no class of the MRO has a function", S, {T: "fT"}, "VALS"),
+        ("union type found by exact match", U, {U: "fU", O: "fO"}, ("filtered", "fU", "VALS")),
+        ("union type without a function", U, {O: "fO"}, "VALS"),
+    ]
+    bad, unk = [], []
+    for label, ty, funcs, want in cases:
+        res = _abstract_run(av, {p_type: ty, p_vals: "VALS", p_funcs: funcs, "Literal": "<Literal>"}, call_hook, getattr_hook)
+        if res[0] == "unknown":
+            unk.append({"case": label, "why": res[1]})
+        elif res != ("value", want):
+            bad.append({"case": label, "found": repr(res[1])[:120], "expected": repr(want)})
+    ctx.judge(av, False if bad else None if unk else True, {"cases": len(cases), "deviations": bad[:3], "undecided": unk[:2]},
+              "validation: exact type match first, otherwise the first class in the MRO that has a validation function, applied once; no function -> values unchanged",
+              "instances are filtered by the wrong rule (a base's rule shadows the class's own, several rules are stacked, or none is applied): the enumeration gains or loses configurations")
+
+
 def rule_N2(ctx: Ctx) -> None:
     sp = _space(ctx)
     concrete_with_subs = []
@@ -103,8 +168,29 @@ def rule_N2(ctx: Ctx) -> None:
     ok = all(k in t for k in ("type_ == bool", "is_abstract(type_)", "type_.__subclasses__()", "itertools.product", "type_origin == tuple", "type_origin is Literal", "UnionType"))
     ctx.judge(ai, ok, {}, "all_instances has the documented case structure (bool / abstract dataclass / concrete dataclass / tuple / union / Literal)")
     av = ctx.index.func("maze_dataset.utils._apply_validation_func")
-    ok = "for superclass in type_.__mro__" in X.U(av.node) and "break" in X.U(av.node) and "type_ in validation_funcs" in X.U(av.node)
-    ctx.judge(av, ok, {}, "validation: exact type match first, otherwise the first class in the MRO that has a validation function")
+    _judge_apply_validation(ctx, av)
+    # the enumeration is recomputed on every call: validity is not a pure function of (type, validation map) - `mark_as_unsupported`
+    # and new subclasses change it - so a memo that outlives one call replays stale results
+    CACHE = ("cache", "functools.cache", "lru_cache", "functools.lru_cache", "cached", "memoize")
+    aw = ctx.index.func("maze_dataset.utils._all_instances_wrapper")
+    shared = []
+
+    def scan(body, per_call: bool):
+        for st_ in body:
+            if isinstance(st_, (ast.FunctionDef, ast.AsyncFunctionDef)):
+                decos = [(dotted_of(d.func) if isinstance(d, ast.Call) else dotted_of(d)) or "" for d in st_.decorator_list]
+                if any(d in CACHE for d in decos) and not per_call:
+                    shared.append(st_.name)
+                scan(st_.body, True)
+            elif isinstance(st_, (ast.If, ast.For, ast.While, ast.With, ast.Try)):
+                for fld in ("body", "orelse", "finalbody"):
+                    scan(getattr(st_, fld, []) or [], per_call)
+    scan(aw.node.body, False)
+    ai_decos = [d.name.rsplit(".", 1)[-1] for d in ctx.index.func("maze_dataset.utils.all_instances").decorators]
+    ok = not shared and not any(d in ("cache", "lru_cache") for d in ai_decos)
+    ctx.judge(aw, ok, {"memoised_across_calls": shared, "all_instances_decorators": ai_decos},
+              "no memo of the enumeration outlives one call (a cached helper may only live inside the per-call wrapper)",
+              "after `mark_as_unsupported` (or any change of the validity rules) the enumeration still yields the old, now invalid configurations")
 
 
 def rule_N3(ctx: Ctx) -> None:
@@ -154,11 +240,28 @@ def rule_N4(ctx: Ctx) -> None:
     ctx.judge(nm, ok, {"members": X.U(comp[0]) if comp else None}, "name renders the class name and *every* field except `_type_`, in declaration order",
               "a field is left out of the name: configurations differing only in it share name and hash")
     sf = ctx.index.func(f"{ELEMENT}._stringify")
-    branches = [n for n in sf.node.body if isinstance(n, ast.If)]
-    t = X.U(sf.node)
-    ok = len(branches) == 3 and "isinstance(v, bool)" in X.U(branches[0].test) and "str(v)[0]" in t and "isinstance(v, _TokenizerElement)" in X.U(branches[1].test) \
-        and X.same_expr(branches[1].body[0].value, "v.name") and "isinstance(v, tuple)" in X.U(branches[2].test) and "str(x) + ', ' for x in v" in t and "f'{k}={v}'" in t
-    ctx.judge(sf, ok, {}, "field rendering: bools as k=T/F, nested elements by their own name, tuples element by element, anything else k=v (all injective on the finite domains)")
+    from sa.fold import Obj
+
+    def sf_call(ev, node, env):
+        d = dotted_of(node.func) or ""
+        if d == "isinstance" and len(node.args) == 2:
+            v = ev.ev(node.args[0], env)
+            kinds = [X.U(x) for x in (node.args[1].elts if isinstance(node.args[1], ast.Tuple) else [node.args[1]])]
+            return any((k == "bool" and isinstance(v, bool)) or (k == "tuple" and isinstance(v, tuple)) or (k == "int" and isinstance(v, int) and not isinstance(v, bool))
+                       or (k == "str" and isinstance(v, str)) or (k.endswith("_TokenizerElement") and isinstance(v, Obj)) for k in kinds)
+        return NotImplemented
+    pk, pv = sf.params()[-2:]
+    cases = [(True, "key=T"), (False, "key=F"), (Obj("Element", {"name": "Elem(a=T)"}), "Elem(a=T)"), (("x", "y"), "key=(x, y, )"), ((), "key=()"), ("plain", "key=plain"), (3, "key=3")]
+    bad, unk = [], []
+    for v, want in cases:
+        res = _abstract_run(sf, {pk: "key", pv: v}, sf_call)
+        if res[0] == "unknown":
+            unk.append(res[1])
+        elif res != ("value", want):
+            bad.append({"value": repr(v), "found": repr(res[1]), "expected": want})
+    ctx.judge(sf, False if bad else None if unk else True, {"cases": len(cases), "deviations": bad[:3], "undecided": unk[:2]},
+              "field rendering: bools as k=T/F, nested elements by their own name, tuples element by element, anything else k=v (all injective on the finite domains)",
+              "two different field values render to the same text (or the key is dropped): distinct tokenizers share a name and hash")
     tn = ctx.index.func(f"{MT}.MazeTokenizerModular.name")
     r = X.returns_of(tn.node)
     ok = len(r) == 1 and X.same_expr(r[0].value, "'-'.join([type(self).__name__, self.prompt_sequencer.name])")
@@ -221,9 +324,40 @@ def rule_N6(ctx: Ctx) -> None:
                       "saving then loading a tokenizer yields another element (or KeyError)")
     ctx.stat("element_loading_fns", n)
     lt = ctx.index.func(f"{MT}._load_tokenizer_element")
-    t = X.U(lt.node)
-    ok = "key = namespace.key" in t and "data[key]['__format__']" in t and "format.split('(')[0]" in t and "getattr(namespace, cls_name)" in t and "return cls(**kwargs)" in t
-    ctx.judge(lt, ok, {}, "_load_tokenizer_element: class name = text before '(' of data[key]['__format__'], looked up in the namespace, constructed from the remaining keys")
+    from sa.fold import Obj as _Obj
+
+    class _Cls:
+        def __init__(self, name):
+            self.name = name
+
+    def lt_call(ev, node, env):
+        d = dotted_of(node.func) or ""
+        if d == "load_item_recursive" and node.args:
+            return ("loaded", ev.ev(node.args[0], env))
+        if d == "getattr" and len(node.args) == 2:
+            o, a = ev.ev(node.args[0], env), ev.ev(node.args[1], env)
+            if isinstance(o, _Obj) and a in o.attrs:
+                return o.attrs[a]
+        f_ = None
+        if isinstance(node.func, ast.Name) and isinstance(env.get(node.func.id), _Cls):
+            f_ = env[node.func.id]
+        if f_ is not None:
+            kw = {}
+            for k in node.keywords:
+                if k.arg is None:
+                    kw.update(ev.ev(k.value, env))
+                else:
+                    kw[k.arg] = ev.ev(k.value, env)
+            return ("construct", f_.name, kw, len(node.args))
+        return NotImplemented
+    pd, pn = lt.params()[:2]
+    ns = _Obj("Namespace", {"key": "coord_tokenizer", "UT": _Cls("UT"), "CTT": _Cls("CTT")})
+    data = {"coord_tokenizer": {"__format__": "CTT(pre=T, intra=F)", "pre": True, "intra": [False]}, "path_tokenizer": {"__format__": "UT()", "x": 1}}
+    res = _abstract_run(lt, {pd: data, pn: ns}, lt_call)
+    want = ("value", ("construct", "CTT", {"pre": ("loaded", True), "intra": ("loaded", [False])}, 0))
+    ctx.judge(lt, None if res[0] == "unknown" else res == want, {"result": repr(res)[:200]},
+              "_load_tokenizer_element: class name = text before '(' of data[namespace.key]['__format__'], looked up in the namespace, constructed from the remaining keys (each loaded recursively)",
+              "a saved tokenizer element is reloaded as another class / from another element's data / with the format marker passed as a field")
 
 
 def rule_N7(ctx: Ctx) -> None:
@@ -254,7 +388,7 @@ def rule_N7(ctx: Ctx) -> None:
 
 RULES = [
     Rule("C15.N1", rule_N1, floor=10, doc="size in closed form"),
-    Rule("C15.N2", rule_N2, floor=7, doc="enumeration soundness premises"),
+    Rule("C15.N2", rule_N2, floor=8, doc="enumeration soundness premises"),
     Rule("C15.N3", rule_N3, floor=1, doc="two encodings of one rule agree on 340 tuples"),
     Rule("C15.N4", rule_N4, floor=4, doc="name injectivity premises"),
     Rule("C15.N5", rule_N5, floor=7, doc="process-stable hashes"),
